@@ -65,6 +65,11 @@ NB == [n \in Px |-> Neigh(n)]
 (* every neighbour address is inside the buffers, and at most 8 fit the 9-slot rows *)
 NeighOK == \A n \in Px : Len(NB[n]) <= 8 /\ \A k \in 1..Len(NB[n]) : NB[n][k] \in Px
 
+\* checksum of the meaningful part of the neighbour table, as hook H1 computes it in C (pinit event)
+NeighHash ==
+  LET step(h, n) == FoldSeq(LAMBDA v, a : ((a * 31) + v + 1) % 65521, ((h * 31) + Len(NB[n])) % 65521, NB[n])
+  IN FoldSeq(LAMBDA n, h : step(h, n), 7, [k \in 1..NSPEC |-> k - 1])
+
 (* ---- input handling of partition() ---- *)
 \* zp address n = ifreq + NK*iang ; e is in C order (ifreq*NTH + iang)
 ZIn(e) == [n \in Px |-> e[((n % NK) * NTH) + (n \div NK)]]
@@ -237,11 +242,27 @@ RegMaxPlateaus(lv) == {P \in {Plateau(x, lv) : x \in Px} : IsRegMaxPlateau(P, lv
 Classes(imo) == {{n \in Px : imo[n] = l} : l \in {imo[n] : n \in Px}}
 
 AllLabelledOK(imo) == \A n \in Px : imo[n] > 0
-PostOK(imo, lv, npart) ==
+\* reference formulation, straight from the property text (costly: one plateau per pixel)
+PostOKRef(imo, lv, npart) ==
   LET cls == Classes(imo) rm == RegMaxPlateaus(lv)
   IN /\ AllLabelledOK(imo)
      /\ Cardinality(cls) = Cardinality(rm)
      /\ \A C \in cls : Connected(C) /\ Cardinality({P \in rm : P \subseteq C}) = 1
+     /\ npart = Cardinality(cls)
+
+\* equivalent formulation used on large grids: NonMax = pixels whose plateau touches a strictly higher pixel
+\* (fixpoint of "has a higher neighbour, or an equal-level neighbour already in NonMax"); the regional maxima are
+\* the connected components of the remaining pixels.  MC_Watershed checks PostOK = PostOKRef exhaustively.
+RECURSIVE NonMaxClose(_, _)
+NonMaxClose(NM, lv) ==
+  LET N == {x \in Px \ NM : \E y \in NbSet(x) : y \in NM /\ lv[y] = lv[x]}
+  IN IF N = {} THEN NM ELSE NonMaxClose(NM \cup N, lv)
+MaxPix(lv) == Px \ NonMaxClose({x \in Px : \E y \in NbSet(x) : lv[y] < lv[x]}, lv)
+PostOK(imo, lv, npart) ==
+  LET cls == Classes(imo) mp == MaxPix(lv)
+  IN /\ AllLabelledOK(imo)
+     /\ \A C \in cls : Connected(C) /\ (C \cap mp) # {} /\ Connected(C \cap mp)
+     /\ \A x \in mp : \A y \in NbSet(x) \cap mp : imo[x] = imo[y]
      /\ npart = Cardinality(cls)
 
 \* output as the Python wrapper returns it: matrix [ifreq][iang] flattened in C order
